@@ -509,3 +509,44 @@ def builders_create_fresh_handlers(ck, F, rid, SP="QtLogger::SimplePipeline", P=
             else:
                 ck.ob(rid, sitestr(f, c), True if o <= {"fresh", "param"} else None, "%s() adds %s" % (short, "/".join(sorted(o))), key="builder-shares|%s" % short)
     ck.require(n >= 22, "only %d handler additions in SimplePipeline's builder methods (25 confirmed by hand)" % n)
+
+
+def creation_is_atomic(ck, cls, tag, rule):
+    """moveToOwnThread(): the test "a thread / worker exists already" and the creation it guards form one critical section: the test is made with the
+    hand-off mutex held and the mutex stays held up to every `new`.  A test made before the mutex is taken (and not repeated inside) lets two callers
+    both pass it and both create a thread and a worker: two logger threads run the handler at the same time and FIFO delivery is lost."""
+    F = ck.facts
+    mv = [f for f in F.fns.values() if f.cls == cls and f.name == cls + "::moveToOwnThread"]
+    ck.require(len(mv) == 1, "%s: moveToOwnThread not found" % tag)
+    mv = F.flat(mv[0])
+    ck.touch(mv)
+    g = Graph(mv)
+    lf = LockFlow(F, mv, g)
+    T, W, M = OT + "::m_thread", OT + "::m_worker", OT + "::m_mutex"
+    held = lambda k: any(m == M for m, _ in lf.IN.get(k, ()))
+    news = [x for x in mv.find(lambda y: y.get("k") == "new")]
+    tests = []
+    for n in mv.all_nodes():
+        if n.get("k") in ("if", "while", "cond") and isinstance(n.get("cond"), dict):
+            for x in walk(n["cond"]):
+                if is_this_field(x, T) or is_this_field(x, W):
+                    k = g.site_of(x)
+                    if k is not None:
+                        tests.append((x, k))
+    if not news or not tests:
+        ck.ob(rule, sitestr(mv), None, "%s: moveToOwnThread: %d creations, %d tests of the thread / worker pointer" % (tag, len(news), len(tests)), key="moveToOwnThread|check-then-create")
+        return
+    for c in news:
+        cs = g.site_of(c)
+        ok = False
+        for x, k in tests:
+            if not held(k) or not g.dominated(cs, {k}):
+                continue
+            between = [q for q in g.reach([k]) if q == cs or g.can_reach(q, cs)]
+            if all(held(q) for q in between):
+                ok = True
+                break
+        ck.ob(rule, sitestr(mv, c), ok, "%s: `%s` is guarded by a test of the thread / worker pointer made under the hand-off mutex, which stays held up to the creation" % (tag, describe(c)[:30]) if ok else
+              "%s: `%s` is not guarded by a test of the thread / worker pointer made under the same critical section (check-then-act): two callers of moveToOwnThread() both pass the unlocked test, are serialised "
+              "by the mutex and both create a thread and a worker - two logger threads run the handler at the same time, messages posted to the first worker are overtaken, and resetOwnThread() stops only the second" % (tag, describe(c)[:30]),
+              key="moveToOwnThread|check-then-create")
